@@ -128,7 +128,7 @@ def run(tier, seed):
                 % (tla({vm: set(states[vm]) for vm in vms}), tla({vm: {tuple(d) for d in dep[vm]} for vm in vms}), tla({vm: set(addr[vm]) for vm in vms})))
     with open(os.path.join(work, "MC_Update.cfg"), "w") as f:
         f.write("SPECIFICATION Spec\nCONSTANTS\n VMs = %s\n StatesOf <- MCStatesOf\n Addressable <- MCAddr\n Dep <- MCDep\n Workers = %s\n Bogus = \"nosuchstate\"\n"
-                % (tla(set(vms)), tla({1, 2} if quick else {1, 2, 3})))
+                % (tla(set(vms)), tla({1, 2, 3})))
         f.write("INVARIANT OnlySelected\nINVARIANT PathNotRemoved\nINVARIANT BothEndsIncluded\nINVARIANT NothingBeforeStart\nINVARIANT UnknownRejected\nCHECK_DEADLOCK FALSE\n")
     dump = os.path.join(work, "graph")
     r = C.run_tlc(work, "MC_Update", "MC_Update.cfg", dump=dump, timeout=3000)
@@ -140,7 +140,13 @@ def run(tier, seed):
     rng.shuffle(edges)
     # always include the default request and one per kind, then a random sample
     n = 12 if quick else 160
-    chosen = edges[:n]
+
+    def both_on_three(e):
+        pre = g.states[e[0]]
+        return int(pre["nworkers"]) == 3 and all(tuple(map(str, x)) != ("-", "-") for x in pre["req"].values()) and not g.states[e[1]]["out"]["error"]
+    # three workers with every vm selected (copies of a path test exist for three workers) are always part of the sample
+    first = [e for e in edges if both_on_three(e)][:3 if quick else 30]
+    chosen = first + [e for e in edges if e not in first][:n - len(first)]
     items, expects = [], []
     for s, d, a in chosen:
         pre, post = g.states[s], g.states[d]
